@@ -9,10 +9,12 @@ Open Scope string_scope.
 (* One alternative of a blocking site; the text is the Go expression printed
    without white space. *)
 Inductive alt :=
-| RecvFrom (ch : string)   (* case ... <-ch *)
+| RecvFrom (ch : string)   (* case ... <-ch, case v := <-ch *)
+| RecvFromOk (ch : string) (* case v, ok := <-ch: the only form that sees a CLOSED channel as such *)
 | SendTo (ch : string)     (* case ch <- ... *)
 | Timer (e : string)       (* <-time.After(d), <-ticker.C, <-timer.C, time.Sleep(d) *)
 | WaitOn (e : string)      (* e.Wait(), e.WaitFor...(), e.Stop(), close(e) *)
+| Made (name cap : string) (* name = make(chan T, cap); cap "0" = unbuffered *)
 | Default.                 (* default: *)
 
 Inductive kind :=
@@ -28,6 +30,7 @@ Inductive kind :=
 | Sleep             (* time.Sleep(d) *)
 | StopCall          (* x.Stop()    — only in functions listed with +calls *)
 | CloseChan         (* close(ch)   — only in functions listed with +calls *)
+| MakeChan          (* make(chan T[, n]): not a blocking site; capacity claims refer to it *)
 | MissingFunction.  (* a listed function that the source no longer has *)
 
 (* g_fn: "file.go:Receiver.Function"; g_ord: position among the function's
@@ -44,6 +47,8 @@ Record gsite := mkG {
 Definition alt_eqb (a b : alt) : bool :=
   match a, b with
   | RecvFrom x, RecvFrom y => String.eqb x y
+  | RecvFromOk x, RecvFromOk y => String.eqb x y
+  | Made n c, Made n' c' => String.eqb n n' && String.eqb c c'
   | SendTo x, SendTo y => String.eqb x y
   | Timer x, Timer y => String.eqb x y
   | WaitOn x, WaitOn y => String.eqb x y
@@ -55,7 +60,7 @@ Definition kind_id (k : kind) : nat :=
   match k with
   | Select => 0 | SelectDefault => 1 | BareSend => 2 | BareRecv => 3 | TimerRecv => 4
   | RangeChan => 5 | WaitGroupWait => 6 | CondWait => 7 | OtherWait => 8 | Sleep => 9
-  | StopCall => 10 | CloseChan => 11 | MissingFunction => 12
+  | StopCall => 10 | CloseChan => 11 | MissingFunction => 12 | MakeChan => 13
   end.
 
 Definition kind_eqb (a b : kind) : bool := Nat.eqb (kind_id a) (kind_id b).
@@ -92,9 +97,16 @@ Fixpoint list_eqb {A} (eqb : A -> A -> bool) (a b : list A) : bool :=
   | _, _ => false
   end.
 
-(* the sites of one function, in source order, as (nesting, kind, alternatives) *)
+(* the sites of one function (channel creations left out), in source order,
+   as (nesting, kind, alternatives) *)
 Definition sites_of_fn (fn : string) (tbl : list gsite) : list (string * kind * list alt) :=
-  map (fun g => (g_ctx g, g_kind g, g_alts g)) (filter (fun g => String.eqb fn (g_fn g)) tbl).
+  map (fun g => (g_ctx g, g_kind g, g_alts g))
+      (filter (fun g => String.eqb fn (g_fn g) && negb (kind_eqb (g_kind g) MakeChan)) tbl).
+
+(* how many channels a function creates under a given name, whatever the capacity *)
+Definition made_count (fn name : string) (tbl : list gsite) : nat :=
+  length (filter (fun g => String.eqb fn (g_fn g) && kind_eqb (g_kind g) MakeChan
+                           && match g_alts g with [Made n _] => String.eqb n name | _ => false end) tbl).
 
 (* what a failing theorem shows of a site *)
 Definition show (g : gsite) : string * nat * string * kind * list alt :=
